@@ -10,15 +10,15 @@ open ExprModel
 open ExprModel.Spec
 
 theorem loopCase_holds (c : Cfg) (P : LProg) : LoopCase c P (SmallColl c) := by
-  intro m name a b ca cb ci cs car c0 code ctx hL hbl ha hb hK hcode
+  intro m name a b ca cb ci cs car c0 code ctx hL ha hb hK hcode
   rcases hcode with ⟨rfl, rfl⟩ | ⟨rfl, rfl⟩ | ⟨rfl, rfl⟩ | ⟨rfl, cc, c1, hcc, hc1, rfl⟩ | ⟨rfl, cc, hcc, rfl⟩ |
     ⟨rfl, rfl⟩ | ⟨rfl, cc, hcc, rfl⟩
-  · exact sim_all (ha ctx) hb hL hK hbl
-  · exact sim_none (ha ctx) hb hL hK hbl
-  · exact sim_any (ha ctx) hb hL hK hbl
-  · exact sim_one (ha ctx) hb hL hK hcc hc1 hbl
-  · exact sim_bi_filter (ha ctx) hb hL hK hcc hbl
-  · exact sim_bi_map (ha ctx) hb hL hK hbl
-  · exact sim_count (ha ctx) hb hL hK hcc hbl
+  · exact sim_all (ha ctx) hb hL hK
+  · exact sim_none (ha ctx) hb hL hK
+  · exact sim_any (ha ctx) hb hL hK
+  · exact sim_one (ha ctx) hb hL hK hcc hc1
+  · exact sim_bi_filter (ha ctx) hb hL hK hcc
+  · exact sim_bi_map (ha ctx) hb hL hK
+  · exact sim_count (ha ctx) hb hL hK hcc
 
 end ExprModel.Refine
